@@ -32,6 +32,10 @@ def c15(ctx):
     graphs = [dict(name="c15-calls2", constants=dict(Procs="{1, 2}", MaxO="2", Vals="{0, 1}", NCalls="0", Logged="{1}", Kinds=K5),
                    trace_constants=dict(Procs="{1, 2, 3}", MaxO="6", Vals="{0, 1, 2}", NCalls="0", Logged="{1}", Kinds=K5),
                    driver_args=[lib, "2", "1"], maxlen=30, maxwalks=None)]
+    # the same behaviours, but while one process is inside C_CreateObject the other one searches (results not looked at):
+    # the calls that follow must still see exactly the committed state
+    graphs.append(dict(graphs[0], name="c15-ovl", driver_args=[lib, "2", "1", "file", "overlap"],
+                       maxwalks=1000 if quick else None))
     if not quick:
         graphs.append(dict(name="c15-calls3", constants=dict(Procs="{1, 2, 3}", MaxO="2", Vals="{0, 1}", NCalls="0", Logged="{1, 3}",
                                                              Kinds=K5),
